@@ -543,6 +543,224 @@ def literal_pairs_periodic_axis(ix, c, cname, argname, v):
     return True, ""
 
 
+
+# ----------------------------------------------------------------------------
+# (h) sub-grids of retained axes (slice) and projection
+# ----------------------------------------------------------------------------
+# constructor parameter -> the piece of identity it must receive for the retained axes
+# (confirmed by reading the constructors; the parameter lists are re-checked on every run)
+SLICE_TARGETS = {
+    "CartesianGrid": {"bounds": "bounds-list", "shape": "shape", "periodic": "periodic"},
+    "UnitGrid": {"shape": "shape", "periodic": "periodic"},
+    "PolarSymGrid": {"radius": "bounds-pair", "shape": "shape"},
+    "SphericalSymGrid": {"radius": "bounds-pair", "shape": "shape"},
+}
+
+
+def _retained_axis(tests) -> int | None:
+    """axis k established by a branch decision `indices[0] == k` on the path"""
+    for t, pol in tests:
+        if isinstance(t, ast.Compare) and len(t.ops) == 1 and isinstance(t.ops[0], ast.Eq) and pol:
+            l, r = t.left, t.comparators[0]
+            if isinstance(l, ast.Subscript) and isinstance(l.value, ast.Name) and const_value(l.slice) == 0 and isinstance(const_value(r), int):
+                return const_value(r)
+    return None
+
+
+def check_slice_project(rep: Report, ix):
+    from ..cfg_lite import all_paths
+    from ..gridleaf import Const, Gather, LeafEval, Leaf, Seq, pair
+
+    base = ix.cls(BASE, "GridBase")
+    n_paths = 0
+    for c in ix.subclasses(base, strict=True):
+        if "slice" not in c.methods or not c.module.rel.startswith("pde/grids/"):
+            continue
+        f = c.methods["slice"][0]
+        rep.saw("functions", f.ref)
+        params = [a.arg for a in f.node.args.args]
+        if len(params) != 2:
+            raise AnalysisError(f"{f.ref}: expected slice(self, indices)")
+        ind = params[1]
+
+        def event(st):
+            if isinstance(st, ast.Assign) and len(st.targets) == 1:
+                return "assign"
+            if isinstance(st, ast.Return):
+                return "return"
+            return None
+
+        for path, oc in all_paths(f.node, event=event):
+            if oc != "return":
+                continue
+            le = LeafEval(ix, c)
+            env: dict = {}
+            ctor = {}  # local name -> constructor call
+            axes_set = {}
+            ret = None
+            for kind, st in path.events:
+                if kind == "return":
+                    ret = st
+                    continue
+                t = st.targets[0]
+                if isinstance(t, ast.Name) and isinstance(st.value, ast.Call):
+                    ctor[t.id] = st.value
+                elif isinstance(t, ast.Attribute) and isinstance(t.value, ast.Name) and t.attr == "axes":
+                    axes_set[t.value.id] = st.value
+                else:
+                    le.bind(t, le.ev(st.value, env), env)
+            if ret is None or ret.value is None:
+                continue
+            call = ret.value if isinstance(ret.value, ast.Call) else ctor.get(ret.value.id) if isinstance(ret.value, ast.Name) else None
+            if call is None:
+                raise AnalysisError(f"{f.ref}: the returned sub-grid is not the result of a constructor call on this path (line {ret.lineno})")
+            n_paths += 1
+            tname = dotted(call.func)
+            target = c.name if tname in ("self.__class__", "type(self)", "cls") else tname.split(".")[-1]
+            if target not in SLICE_TARGETS:
+                raise AnalysisError(f"{f.ref}: sub-grid class `{tname}` is not in the table of slice targets")
+            tcls = next((k for k in ix.all_classes() if k.name == target and k.module.rel.startswith("pde/grids/")), None)
+            init = tcls.find_method("__init__") if tcls else None
+            if init is None:
+                raise AnalysisError(f"{f.ref}: constructor of {target} not found")
+            iparams = [a.arg for a in init.node.args.args][1:]
+            table = SLICE_TARGETS[target]
+            if not set(table) <= set(iparams):
+                raise AnalysisError(f"{init.ref}: parameters {iparams} no longer match the slice-target table {sorted(table)}")
+            given = dict(zip(iparams, call.args))
+            given.update({k.arg: k.value for k in call.keywords if k.arg})
+            k_axis = _retained_axis(path.tests)
+            tag = f"{c.name}.slice -> {target}" + (f" (axis {k_axis})" if k_axis is not None else " (gather over indices)")
+            rep.saw("slice paths", tag)
+            for p, want in table.items():
+                arg = given.get(p)
+                construct = f"{f.ref}::{target}.{p}" + (f"::axis{k_axis}" if k_axis is not None else "")
+                if arg is None:
+                    dflt_ok = False
+                    if want == "periodic":
+                        # omitting `periodic` is right only if the retained axis can never be periodic
+                        per = c.find_attr("_periodic")
+                        dflt_ok = False
+                    rep.oblige(f"{tag}: {p} passed", dflt_ok, "parameter omitted")
+                    rep.violation("C12.slice-preserves-axes", construct, f"{tag}: constructor parameter `{p}` of the sub-grid is not passed, so the {want} of the retained axis is replaced by the default", line=call.lineno)
+                    continue
+                got = le.ev(arg, env)
+                # a reader property used here must be lossless as well
+                for col in le.collapses:
+                    lossy = [d for d in col.dropped if d not in col.exact]
+                    if lossy:
+                        rep.violation(
+                            "C12.slice-preserves-axes",
+                            construct + "::lossy-reader",
+                            f"{tag}: `{p}` is taken from `{col.prop}`, which drops {[str(d) for d in lossy]} under `{col.condition}` without that condition fixing their value",
+                            line=col.line,
+                        )
+                le.collapses.clear()
+                if k_axis is None:
+                    accepted = {
+                        "bounds-list": [Gather("bounds", ind)],
+                        "shape": [Gather("shape", ind)],
+                        "periodic": [Gather("periodic", ind)],
+                        "bounds-pair": [],
+                    }[want]
+                else:
+                    accepted = {
+                        "bounds-list": [Seq((pair(k_axis),))],
+                        "bounds-pair": [pair(k_axis)],
+                        "shape": [Leaf("shape", k_axis), Seq((Leaf("shape", k_axis),))],
+                        "periodic": [Leaf("periodic", k_axis), Seq((Leaf("periodic", k_axis),))],
+                    }[want]
+                ok = got in accepted
+                rep.oblige(f"{tag}: `{p}` = {want} of the retained axes", ok, f"{ast.unparse(arg)} carries {got}")
+                if not ok:
+                    rep.violation(
+                        "C12.slice-preserves-axes",
+                        construct,
+                        f"{tag}: `{p}={ast.unparse(arg)}` carries {got}; the sub-grid must receive {' or '.join(str(a) for a in accepted)} (bounds, shape and periodicity of every retained axis unchanged), "
+                        "otherwise projected/sliced fields live on a grid with other cell centres and volumes and their integral changes",
+                        line=call.lineno,
+                    )
+            # axis names, if reassigned, must be those of the retained axes
+            if isinstance(ret.value, ast.Name) and ret.value.id in axes_set:
+                got = le.ev(axes_set[ret.value.id], env)
+                accepted = [Gather("axes", ind)] if k_axis is None else [Seq((Leaf("axes", k_axis),))]
+                ok = got in accepted
+                rep.oblige(f"{tag}: axis names of the retained axes", ok, str(got))
+                if not ok:
+                    rep.violation("C12.slice-preserves-axes", f"{f.ref}::{target}.axes", f"{tag}: the sub-grid's axes are set to {got}, expected {accepted[0]}", line=ret.lineno)
+    rep.floor("returning paths of grid slice methods", n_paths, 4)
+    # --- projection: integrate over exactly the axes that slice() does not retain
+    for qn in ("ScalarField.project", "ScalarField.slice"):
+        f = ix.func("pde/fields/scalar.py", qn)
+        rep.saw("functions", f.ref)
+        defs = {}
+        for st in ast.walk(f.node):
+            if isinstance(st, ast.Assign) and len(st.targets) == 1:
+                t = st.targets[0]
+                if isinstance(t, ast.Name):
+                    defs.setdefault(t.id, []).append(st.value)
+                elif isinstance(t, ast.Tuple) and isinstance(st.value, ast.Tuple) and len(t.elts) == len(st.value.elts):
+                    for a, b in zip(t.elts, st.value.elts):
+                        if isinstance(a, ast.Name):
+                            defs.setdefault(a.id, []).append(b)
+        slices = [n for n in ast.walk(f.node) if isinstance(n, ast.Call) and isinstance(n.func, ast.Attribute) and n.func.attr == "slice" and dotted(n.func.value) in ("self.grid", "grid")]
+        if len(slices) != 1 or len(slices[0].args) != 1 or not isinstance(slices[0].args[0], ast.Name):
+            raise AnalysisError(f"{f.ref}: expected one call grid.slice(<name>)")
+        retain = slices[0].args[0].id
+        rdef = defs.get(retain, [])
+        # ax_retain = tuple(sorted(set(ax_all) - set(ax_remove))) with ax_all = range(num_axes)
+        ok = False
+        removed_name = None
+        if len(rdef) == 1:
+            subs = [n for n in ast.walk(rdef[0]) if isinstance(n, ast.BinOp) and isinstance(n.op, ast.Sub)]
+            if len(subs) == 1:
+                l, r = subs[0].left, subs[0].right
+                ln = [n.id for n in ast.walk(l) if isinstance(n, ast.Name) and n.id != "set"]
+                rn = [n.id for n in ast.walk(r) if isinstance(n, ast.Name) and n.id != "set"]
+                if len(ln) == 1 and len(rn) == 1:
+                    alld = defs.get(ln[0], [])
+                    is_all = len(alld) == 1 and isinstance(alld[0], ast.Call) and dotted(alld[0].func) == "range" and len(alld[0].args) == 1 and ast.unparse(alld[0].args[0]).endswith("grid.num_axes")
+                    sorted_ = any(isinstance(n, ast.Call) and dotted(n.func) == "sorted" for n in ast.walk(rdef[0]))
+                    ok = is_all and sorted_
+                    removed_name = rn[0]
+        rep.oblige(f"{qn}: retained axes = sorted(all axes - removed axes)", ok, ast.unparse(rdef[0]) if rdef else None)
+        if not ok:
+            rep.violation("C12.project-axes", f"{f.ref}::retained-axes", f"{qn}: the axes handed to grid.slice are `{ast.unparse(rdef[0]) if rdef else retain}`; expected the sorted complement of the removed axes in range(grid.num_axes)", line=slices[0].lineno)
+            continue
+        if qn.endswith("project"):
+            ints = [n for n in ast.walk(f.node) if isinstance(n, ast.Call) and isinstance(n.func, ast.Attribute) and n.func.attr == "integrate"]
+            red = [n for n in ast.walk(f.node) if isinstance(n, ast.Call) and dotted(n.func) in ("np.max", "np.min", "np.sum", "np.mean")]
+            bad = []
+            for n in ints:
+                ax = next((k.value for k in n.keywords if k.arg == "axes"), n.args[1] if len(n.args) > 1 else None)
+                if not (isinstance(ax, ast.Name) and ax.id == removed_name):
+                    bad.append(ast.unparse(n))
+            for n in red:
+                ax = next((k.value for k in n.keywords if k.arg == "axis"), None)
+                if not (isinstance(ax, ast.Name) and ax.id == removed_name):
+                    bad.append(ast.unparse(n))
+            rep.floor("integrate calls in ScalarField.project", len(ints), 2)
+            rep.oblige("project: every reduction runs over exactly the removed axes", not bad, bad)
+            for b in bad:
+                rep.violation("C12.project-axes", f"{f.ref}::reduction-axes", f"project reduces with `{b}`, not over the removed axes `{removed_name}` that the sliced grid lacks", line=f.node.lineno)
+    # --- radial factor of the cylinder equals the polar cell volume (so that V_cyl = V_polar x dz)
+    vols = {}
+    for gname in ("PolarSymGrid", "CylindricalSymGrid"):
+        g = grid_model_for(ix, gname, GRIDS[gname][2][0])
+        it = Interp(ix)
+        try:
+            data = it.getattr(g, "cell_volume_data")
+        except (Unsupported, RaisedInCode) as e:
+            raise AnalysisError(f"{gname}.cell_volume_data: {e}") from e
+        data = list(data.items) if isinstance(data, Vec) else list(data)
+        i0 = sp.Symbol("i0", integer=True, nonnegative=True)
+        vols[gname] = data[0].at(i0) if isinstance(data[0], IdxArr) else it.as_expr(data[0])
+    ok = sp.simplify(sp.expand(vols["PolarSymGrid"] - vols["CylindricalSymGrid"])) == 0
+    rep.oblige("radial cell-volume factor of CylindricalSymGrid = cell volume of the PolarSymGrid with the same radial axis", ok, {k: str(v) for k, v in vols.items()})
+    if not ok:
+        rep.violation("C12.project-volume", f"{GRIDS['CylindricalSymGrid'][0]}::CylindricalSymGrid.cell_volume_data::radial", f"radial factor {vols['CylindricalSymGrid']} differs from the polar cell volume {vols['PolarSymGrid']}: projecting along z changes the integral")
+
+
 def check(tier: str) -> Report:
     rep = Report("C12", tier, "proof", "abstract interpretation of geometry helpers into sympy; exact integrals / sums; template matching for point normalisation; index-space typing of periodicity flags")
     rep.explanation = (
@@ -553,18 +771,21 @@ def check(tier: str) -> Report:
         "pos_from_cart o pos_to_cart = id (symbolic where sympy reduces it, else spot-evaluated on the extracted term and recorded as such); "
         "all nine transform pairs return, cell<->grid mutually inverse with centres at index + 1/2; normalize_point equals the periodic / "
         "reflect templates in both the 1-axis and n-axis branch; integrate weights. Rule (g): arguments of _difference_vector must be indexed "
-        "by Cartesian component and tied to the Cartesian direction of the periodic grid axis."
+        "by Cartesian component and tied to the Cartesian direction of the periodic grid axis. Rule (h): every returning path of every grid `slice` "
+        "method hands the sub-grid constructor exactly the bounds (both ends), shape and periodicity of the retained axes (structural leaf "
+        "domain of pdelint/gridleaf.py; reader properties such as `radius` are followed and must be lossless), ScalarField.project/slice "
+        "retain the sorted complement of the removed axes and reduce over exactly the removed axes."
     )
     ix = get_index()
     run_sections(
         rep,
-        [*coordinate_class_sections(), check_cell_volumes, check_transform, check_normalize, check_integrate, check_difference_vector, check_wrap_formula, check_discretize, check_ball_volumes],
+        [*coordinate_class_sections(), check_cell_volumes, check_transform, check_normalize, check_integrate, check_difference_vector, check_wrap_formula, check_discretize, check_ball_volumes, check_slice_project],
         ix,
     )
     rep.assumptions += [
         "lemma used for normalize_point: for L > 0, (x mod L) lies in [0, L) and differs from x by a multiple of L (Python/numpy modulo)",
         "chart domains r > 0, theta, sigma in (0, pi); points within round-off of a face and get_random_point containment are not decided",
         "bipolar/bispherical inverse maps are spot-evaluated on the extracted sympy terms (recorded per obligation), not proved",
-        "ScalarField.project delegates to grid.integrate over the removed axes (checked here through the integrate weights only)",
+        "projection preserves the integral because (i) slice() keeps bounds/shape/periodicity of the retained axes (rule h), (ii) integrate weights are the cell-volume factors of the removed axes, (iii) cell volumes factorise per axis and the radial factor of the cylinder equals the polar cell volume -- all three are obligations of this check",
     ]
     return rep
